@@ -1205,6 +1205,15 @@ pub fn f_str(max_len: usize, core_len: usize, pos_len: usize) -> Vec<Case> {
     let mut v = Vec::new();
     for b in &bs {
         let blen = b.chars().count();
+        // full_moon tolerates a raw line break inside a quoted string after any escape; that is not Lua. Such bodies
+        // stay in the space only up to length 2 (where they document the known finding), longer ones are left out.
+        if blen > 2 && !strict_string_body(b) {
+            // long-bracket forms of the same body are still valid Lua
+            if !b.contains("]]") && !b.ends_with(']') {
+                v.push(case("F-STR", Dial::Core, format!("x = [[{}]]\n", b)));
+            }
+            continue;
+        }
         let mut forms: Vec<String> = vec![format!("\"{}\"", b), format!("'{}'", b)];
         if !b.contains('\\') || true {
             if !b.contains("]]") && !b.ends_with(']') {
@@ -1223,6 +1232,31 @@ pub fn f_str(max_len: usize, core_len: usize, pos_len: usize) -> Vec<Case> {
         }
     }
     v
+}
+
+/// true if a quoted string with this body contains no raw line break (a line break may only follow a backslash or `\z`)
+pub fn strict_string_body(b: &str) -> bool {
+    let c: Vec<char> = b.chars().collect();
+    let mut i = 0;
+    while i < c.len() {
+        match c[i] {
+            '\\' => {
+                if c.get(i + 1) == Some(&'z') {
+                    i += 2;
+                    while i < c.len() && matches!(c[i], ' ' | '\n' | '\r' | '\t') {
+                        i += 1;
+                    }
+                } else if c.get(i + 1) == Some(&'\r') && c.get(i + 2) == Some(&'\n') {
+                    i += 3;
+                } else {
+                    i += 2;
+                }
+            }
+            '\n' | '\r' => return false,
+            _ => i += 1,
+        }
+    }
+    true
 }
 
 pub fn f_num() -> Vec<Case> {
@@ -1776,6 +1810,139 @@ pub fn token_mutants(base: &Case) -> Vec<Case> {
         if i + 1 < n {
             let (_, c, d) = &l.toks[i + 1];
             v.push(mk(format!("{}{}{}{}{}", &t[..*a], &t[*c..*d], &t[*b..*c], &t[*a..*b], &t[*d..])));
+        }
+    }
+    v
+}
+
+// ------------------------------------------------------------------------------------------------------------
+// F-NEST: every catalogue statement inside every enclosing construct; F-ARGS: argument lists; F-TABLE: constructors
+// ------------------------------------------------------------------------------------------------------------
+pub const ENCLOSURES: &[(&str, &str)] = &[
+    ("do\n\t", "\nend\n"),
+    ("local function w()\n\t", "\nend\n"),
+    ("if a then\n\t", "\nend\n"),
+    ("if a then\n\tf()\nelse\n\t", "\nend\n"),
+    ("if a then\n\tf()\nelseif b then\n\t", "\nend\n"),
+    ("while a do\n\t", "\nend\n"),
+    ("repeat\n\t", "\nuntil a\n"),
+    ("for i = 1, 2 do\n\t", "\nend\n"),
+    ("for k, v in pairs(t) do\n\t", "\nend\n"),
+    ("f(function()\n\t", "\nend)\n"),
+    ("local t = {\n\tf = function()\n\t\t", "\n\tend,\n}\n"),
+    ("do\n\tdo\n\t\t", "\n\tend\nend\n"),
+    ("x = function()\n\t", "\nend\n"),
+];
+
+pub fn f_nest(every: usize) -> Vec<Case> {
+    let mut v = Vec::new();
+    let mut k = 0usize;
+    for st in f_stmt() {
+        if st.text.starts_with("#!") || st.text.starts_with("::") || st.text.starts_with("goto") {
+            continue;
+        }
+        let body = st.text.trim_end_matches('\n');
+        for (pre, post) in ENCLOSURES {
+            k += 1;
+            if k % every != 0 {
+                continue;
+            }
+            // `type` declarations are only allowed at the top level of a file in Luau: the parser filters them out
+            v.push(case("F-NEST", st.dial, format!("{}{}{}", pre, body, post)));
+        }
+    }
+    v
+}
+
+pub const ARG_ATOMS: &[&str] = &[
+    "a",
+    "aaaaaaaaaaaaaaaaaaaa",
+    "\"s\"",
+    "{ 1 }",
+    "{\n\t1,\n}",
+    "function() end",
+    "function()\n\treturn 1\nend",
+    "g(b)",
+    "a + b",
+    "{ k = v, [1] = 2 }",
+    "...",
+];
+
+pub fn f_args(max: usize, every: usize) -> Vec<Case> {
+    let mut v = Vec::new();
+    let mut lists: Vec<Vec<&str>> = vec![vec![]];
+    fn rec<'a>(n: usize, cur: &mut Vec<&'a str>, out: &mut Vec<Vec<&'a str>>) {
+        if !cur.is_empty() {
+            out.push(cur.clone());
+        }
+        if cur.len() == n {
+            return;
+        }
+        for a in ARG_ATOMS {
+            cur.push(a);
+            rec(n, cur, out);
+            cur.pop();
+        }
+    }
+    rec(max, &mut vec![], &mut lists);
+    let forms: &[(&str, &str)] = &[("f(", ")\n"), ("local x = o:m(", ")\n"), ("return f(", ")(c)\n"), ("x = f(", ").k\n"), ("f(a)(", ")\n")];
+    let mut k = 0usize;
+    for l in &lists {
+        let body = l.join(", ");
+        for (pre, post) in forms {
+            k += 1;
+            if k % every != 0 {
+                continue;
+            }
+            let text = format!("{}{}{}", pre, body, post);
+            let text = if body.contains("...") { format!("local function w(...)\n{}end\n", text) } else { text };
+            v.push(case("F-ARGS", Dial::Core, text));
+        }
+    }
+    v
+}
+
+pub const FIELD_ATOMS: &[&str] = &["1", "a", "k = v", "[k] = v", "[ [[k]] ] = v", "[\"k\"] = 'v'", "{ 1 }", "f = function() end", "aaaaaaaaaaaaaaaaaaaa = bbbbbbbbbbbbbbbbbbbb", "g()", "(g())", "..."];
+
+pub fn f_table(max: usize, every: usize) -> Vec<Case> {
+    let mut v = Vec::new();
+    let mut lists: Vec<Vec<&str>> = vec![];
+    fn rec<'a>(n: usize, cur: &mut Vec<&'a str>, out: &mut Vec<Vec<&'a str>>) {
+        if !cur.is_empty() {
+            out.push(cur.clone());
+        }
+        if cur.len() == n {
+            return;
+        }
+        for a in FIELD_ATOMS {
+            cur.push(a);
+            rec(n, cur, out);
+            cur.pop();
+        }
+    }
+    rec(max, &mut vec![], &mut lists);
+    let mut k = 0usize;
+    for l in &lists {
+        for sep in [", ", "; ", ","] {
+            for trailing in [false, true] {
+                for layout in 0..3 {
+                    k += 1;
+                    if k % every != 0 {
+                        continue;
+                    }
+                    let mut body = l.join(sep);
+                    if trailing {
+                        body.push_str(sep.trim_end());
+                    }
+                    let text = match layout {
+                        0 => format!("local t = {{ {} }}\n", body),
+                        1 => format!("local t = {{{}}}\n", body),
+                        _ => format!("local t = {{\n\t{}\n}}\n", body),
+                    };
+                    let text = if body.contains("...") { format!("local function w(...)\n{}end\n", text) } else { text };
+                    v.push(case("F-TABLE", Dial::Core, text));
+                }
+            }
         }
     }
     v
